@@ -1,5 +1,6 @@
 SPECIFICATION Spec
 CONSTANTS
+  Dev = {}
   Mode = "arr"
   MaxParams = 5
 CHECK_DEADLOCK FALSE
